@@ -37,12 +37,13 @@ func TestFamily(t *testing.T) {
 	seed := envInt("VERIF_SEED", 1)
 	runs := envInt("VERIF_RUNS", 1)
 	steps := envInt("VERIF_STEPS", 400)
+	first := envInt("VERIF_FIRST", 0)
 	for _, f := range strings.Split(fam, ",") {
 		fn, ok := Families[f]
 		if !ok {
 			t.Fatalf("unknown family %q", f)
 		}
-		for i := 0; i < runs; i++ {
+		for i := first; i < first+runs; i++ {
 			s := int64(seed)*1000 + int64(i)
 			var c *Cluster
 			synctest.Test(t, func(t *testing.T) {
